@@ -192,9 +192,11 @@ func replayNative(spec *Spec, hs HarnessSpec, rfile string, v *Violation) replay
 	defer os.RemoveAll(tmp)
 	specDir := filepath.Join(verifDir(), "harness", spec.Property)
 	repl := map[string]string{}
-	rtFiles, _ := filepath.Glob(filepath.Join(verifDir(), "verifrt", "*.go"))
-	for _, f := range rtFiles {
-		repl["/repo/verifrt/"+filepath.Base(f)] = f
+	for _, shared := range []string{"verifrt", "verifenv"} {
+		rtFiles, _ := filepath.Glob(filepath.Join(verifDir(), shared, "*.go"))
+		for _, f := range rtFiles {
+			repl["/repo/"+shared+"/"+filepath.Base(f)] = f
+		}
 	}
 	for _, f := range spec.Files {
 		repl[filepath.Join("/repo", f.Pkg, "zz_verif_"+filepath.Base(f.Src))] = filepath.Join(specDir, f.Src)
